@@ -26,8 +26,13 @@ DOC_COLS = re.findall(r"^\* :code:`(\w+)` - ", open(_doc).read(), flags=re.M) if
 if len(DOC_COLS) < 15:
     raise core.HarnessError("could not parse the diagnostic column list from docs/diagnostic.rst")
 
-PROF = sc.make_prof(fams=["lin", "sinlin", "rosen", "hashed", "hashed", "script"], diag=1.0, reg=0.06, zero_resid=0.05,
-                    maxfuns=["npt+1", 10, 30, 60, 150, 150])
+PROF = sc.make_prof(fams=["lin", "sinlin", "rosen", "hashed", "hashed", "script", "hinge"], diag=1.0, reg=0.06, zero_resid=0.05,
+                    maxfuns=["npt+1", 10, 30, 60, 150, 150],
+                    # the radius updates have their own copies inside the growing phase (safety steps with their three variants,
+                    # growing.gamma_dec, the reset at its end): a fifth of all cases grows its initial set
+                    opts_list=[0, 0, 0, 1, 2, 3, 4, 5, 6, 7, 8, 9, 10, 12, 13],
+                    growing_list=["default", "perturb", "newdirs", "geom", "safety_reduce", "safety_reduce", "safety_reduce", "safety_full",
+                                  "safety_full", "reset", "reset", "gamma_dec", "gamma_dec", "no_safety", "delta_scale", "full_rank_params"])
 
 
 @st.composite
@@ -40,6 +45,22 @@ def cases(draw):
         return {"n": n, "m": n, "fam": "lin", "A": np.eye(n).tolist(), "b": c, "x0": [0.0] * n, "lower": None, "upper": None, "scaling": False,
                 "npt": n + 1, "rhobeg": draw(st.sampled_from([None, 1.0, 4e9])), "rhoend": 1e-8, "maxfun": draw(st.sampled_from([40, 80])),
                 "up": {"logging.save_diagnostic_info": True, "logging.save_poisedness": False}, "np_seed": 0, "tags": ["far-target"]}
+    if draw(st.integers(0, 15)) == 0:
+        # long growing phases: n = 6..12 with 1-3 initial directions and few (hinged: eventually flat) residuals, small rhobeg -
+        # many iterations pass, with very successful steps, safety steps and radius updates, before the set is complete
+        n = draw(st.integers(6, 12))
+        k = draw(st.integers(1, 3))
+        A = [[draw(sc.g8) for _ in range(n)] for _ in range(k)] + [[0.0] * n]
+        g = draw(st.sampled_from(["safety_reduce", "safety_reduce", "safety_full", "default", "gamma_dec", "no_safety", "reset"]))
+        up = {"logging.save_diagnostic_info": True, "logging.save_poisedness": False, "growing.ndirs_initial": draw(st.integers(1, 3))}
+        up.update({"safety_reduce": {"growing.safety.reduce_delta": True}, "safety_full": {"growing.safety.full_geom_step": True}, "default": {},
+                   "gamma_dec": {"growing.gamma_dec": 0.25}, "no_safety": {"growing.safety.do_safety_step": False},
+                   "reset": {"growing.reset_delta": True, "growing.reset_rho": draw(st.booleans())}}[g])
+        rb = draw(st.sampled_from([0.01, 0.1]))
+        return {"n": n, "m": k + 1, "fam": draw(st.sampled_from(["hinge", "hinge", "lin"])), "A": A, "b": [-1.0] * (k + 1), "x0": [0.0] * n,
+                "lower": None, "upper": None, "scaling": False, "npt": n + 1, "rhobeg": rb, "rhoend": rb * 10.0 ** -draw(st.sampled_from([2, 5])),
+                "maxfun": draw(st.sampled_from([60, 150, 300])), "up": up, "np_seed": draw(st.integers(0, 2 ** 16)),
+                "tags": ["long-growing", "growing:" + g]}
     return draw(sc.scenarios(PROF))
 
 
